@@ -30,6 +30,8 @@ def run(prog, world, sem, rep):
     rep.rule("C07.c", "the v2 wait-list bucket is written only by: the unbond handlers (store), WithdrawUnbonded (remove), the legacy migration (save); "
              "the four Receive handlers are reachable only under the matching hook variant and registered token", 20)
     rep.rule("C07.e", "the history entry copies CurrentBatch.requested_* before they are zeroed; the roll-over zeroes both totals and adds one to the id", 3)
+    rep.rule("C07.i", "AllHistory pages faithfully: the reported list is collected from a range of the history store bounded by the cursor, cut only by "
+             "take(limit) - no skip / filter / step between the store and the response", 1)
     rep.rule("C07.f", "UnbondRequests reports (batch key, bsei_amount, stsei_amount) of the queried address; every AllHistory response field "
              "is the same-named UnbondHistory field (three deprecated aliases tabled)", 13)
     rep.rule("C07.g", "token side: cw20-legacy Send / SendFrom deliver Cw20ReceiveMsg{sender: info.sender, amount: the debited amount}", 2)
@@ -276,6 +278,25 @@ def run(prog, world, sem, rep):
                         rep.ob("C07.f", "AllHistory.%s" % fname, ok, "copied from UnbondHistory.%s" % src, where(v.body, blk.idx), key="C07.f | AllHistory | %s" % fname)
     if not found:
         rep.ob("C07.f", "AllHistory response", False, "anchor-lost: no UnbondHistoryResponse construction reachable from the AllHistory query")
+
+    # ---------------------------------------------------------------- C07.i paging of AllHistory
+    from ..iters import pipeline, droppers, last
+    pag = []
+    for (v, bb, e) in call_sites(sem, qv, lambda k: last(k) in ("collect", "from_iter")):
+        if not e.args:
+            continue
+        lv = v.be.ev_call(bb, v.body.blocks[bb].term)
+        ads, base = pipeline(world, lv.args[0])
+        if not (base.op == "call" and last(base.info) == "range"):
+            continue
+        pag.append((v, bb, [nm for nm, _ in droppers(world, lv.args[0])]))
+    if not pag:
+        rep.ob("C07.i", "AllHistory paging", False, "anchor-lost: the AllHistory query does not collect a range of the history store", where(q))
+    for (v, bb, dr) in pag:
+        extra = [d_ for d_ in dr if d_ != "take"]
+        rep.ob("C07.i", "AllHistory reports every stored entry of the page", not extra,
+               "entries of the range can be dropped by %s before they are reported (a cursor that names no stored batch then hides a real one)" % extra if extra
+               else "range from the cursor bound, at most `limit` entries (take), nothing skipped or filtered", where(v.body, bb), key="C07.i | %s" % v.body.path, fkey="AllHistory")
 
     # ---------------------------------------------------------------- C07.g token side
     bex = entry(prog, "bsei")
